@@ -15,7 +15,7 @@ PLANS = {
         'rule': ('cases = seeded random complete DFAs (1-7 core states + 0-3 unreachable, |Sigma| 0-3, accepting ratio drawn from '
                  '{0,.1,.5,.9,1}), DFAs with deliberately split (equivalent) states, and a fixed corner corpus; each renamed '
                  'injectively and list-shuffled (insertion order) per case, run under the round\'s PYTHONHASHSEED in a pristine fork; '
-                 'all three minimisers per case (evaluations counts minimiser calls). distinct = distinct abstract (pre-renaming) DFA; '
+                 'all three minimisers per case (evaluations counts minimiser calls); in 30% of the cases the live DFA object is then edited in place (a transition redirected, an accepting bit flipped, a state added) and minimised again in the same interpreter; state names include names that look like the library\'s own set/pair names ({q1,q2}, (a,b)). distinct = distinct abstract (pre-renaming) DFA; '
                  'non-trivial = >=2 Nerode classes and at least one mergeable pair of states.'),
         'schedule_measure': 'distinct (abstract DFA, iteration order of its Q/Sigma/F sets in the executing process) pairs',
         'assumptions': COMMON_ASSUMPTIONS,
@@ -31,7 +31,7 @@ PLANS = {
         'rule': ('cases = pairs of complete DFAs over a common alphabet (1-6 states each): renamed copies (with/without extra unreachable '
                  'states), one side minimised, one state split, independent DFAs, single-transition and single-accepting-bit mutations, the '
                  'same object twice; both functions x both argument orders per case (evaluations counts calls), each under a 300k-tick budget; '
-                 'states renamed per case, run under the round\'s PYTHONHASHSEED in a pristine fork. distinct = distinct abstract pair; '
+                 'states renamed per case, run under the round\'s PYTHONHASHSEED in a pristine fork; in half of the cases one of the two live objects is then edited in place and all four calls are repeated (object-lifetime history). distinct = distinct abstract pair; '
                  'non-trivial = both reachable parts have >= 2 states.'),
         'schedule_measure': 'distinct (abstract pair, iteration order of both DFAs\' Q/Sigma/F sets) pairs; pair exploration order is set_element(todo)',
         'assumptions': COMMON_ASSUMPTIONS + ['a call that does not return within 300000 ticks (correct code needs < 3000 on these sizes) is counted as non-terminating'],
@@ -48,7 +48,7 @@ PLANS = {
         'rule': ('cases = (object, word list): DFAs (1-5 states), NFAs (1-6 states, epsilon density up to .6, epsilon self-loops/cycles, '
                  'dict and defaultdict transition maps), PDAs (1-4 states, all four transition shapes, closure limit knob in {20,60,200,1000}) '
                  'and CNF grammars (1-5 variables); words = accepted words up to length 4-5 chosen with the reference (shortest + longest) plus '
-                 'rejected words for NFA/PDA; both leftmost and rightmost for grammars; one evaluation = one library call under the tick budget. '
+                 'rejected words for NFA/PDA; both leftmost and rightmost for grammars; 30% of the automata are edited in place after the first pass and simulated again; a few PDAs per round have a large finite closure (2047 configurations) with the limit raised above its default; one evaluation = one library call under the tick budget. '
                  'distinct = distinct abstract object; non-trivial = some valid run of length >= 3 with an epsilon step (automata) / derivation of length >= 3.'),
         'schedule_measure': 'distinct (abstract object, iteration order of its Q/Sigma/Gamma/F/V sets) pairs',
         'assumptions': COMMON_ASSUMPTIONS + ['a call that does not return within 400k (PDA: 1.2M) ticks is counted as not returning in finite time',
@@ -64,7 +64,7 @@ PLANS = {
         'thorough': {'rounds': 96, 'wall_cap_s': 1500},
         'rule': ('cases = (a) regular-expression trees with 0-10 operator nodes over <= 3 single-letter symbols (leaf mix drawn per case, '
                  'corner corpus with 0/1 under star and in products) -> regexp_to_nfa; (b) complete DFAs with 1-5 states (+<=1 unreachable), |Sigma| 1-2, '
-                 'and split-state DFAs -> dfa_to_regexp; states renamed and list-shuffled per case (names start/accept in the pool), run under the round\'s '
+                 'and split-state DFAs -> dfa_to_regexp; also three-symbol DFAs with <= 4 states, binary alphabets {0,1} (the letters 0 and 1 are also the constants of the regexp syntax), earlier conversions of a twin / another DFA in the same interpreter (35%), in-place edit then reconversion (25%); states renamed and list-shuffled per case (names start/accept and set-like names in the pool), run under the round\'s '
                  'PYTHONHASHSEED in a pristine fork. Oracle: exact language equality of canonical minimal DFAs. distinct = distinct abstract input; '
                  'non-trivial = language neither empty nor Sigma* (and >= 2 states for DFAs).'),
         'schedule_measure': 'distinct (abstract input, iteration order of the DFA\'s Q/Sigma/F sets resp. of the result NFA\'s Q) pairs; the elimination order is the iteration order of Q - {start, accept}',
@@ -83,7 +83,7 @@ PLANS = {
                  '26 boundary), 0-3 rules per variable of length 0-4 over <= 3 terminals; drawn features: epsilon rules, unit rules and unit cycles, '
                  'shared right-hand sides, start variable on a right-hand side, useless variables; variables renamed (A-Z permutation / multi-letter) and sets '
                  'list-shuffled per case; per case: cfg_to_chomsky, the five phase functions in pipeline order (each on the previous output) and '
-                 'cfg_apply_chomsky(G, phase, hint) with clashing and non-clashing hints (evaluations counts calls). Oracle: bounded language equality '
+                 'cfg_apply_chomsky(G, phase, hint) with clashing and non-clashing hints (evaluations counts calls); in a quarter of the cases a twin grammar (same rules, other start variable) is converted first in the same interpreter, and in a quarter the live grammar is edited in place (rule added/removed, start variable changed) and converted again. Oracle: bounded language equality '
                  '(words <= 4..7 depending on |Sigma|, reference fixpoint on both sides), phase postconditions, new start variable not among the old variables, '
                  'validity, argument snapshot incl. rule order. distinct = distinct abstract grammar; non-trivial = >= 2 words within the bound and some phase after the first changes the rule set.'),
         'schedule_measure': 'distinct (abstract grammar, iteration order of its V and Sigma sets) pairs',
@@ -102,7 +102,7 @@ PLANS = {
         'thorough': {'rounds': 96, 'wall_cap_s': 1500},
         'rule': ('cases = sessions over one PDA (1-4 states, |Sigma| 1-2, |Gamma| 1-2, 1-8 transitions of the four shapes push/pop/replace/no-op, '
                  'epsilon moves incl. stack-growing and stack-neutral cycles) of 6-8 steps "set closure limit; pda_accepts_word(P, w)" with |w| <= 4; '
-                 'limits drawn from {0,1,2,3,5,10,40,1000} and from {exact largest closure size -1, +0, +1} computed by the reference; states/symbols/epsilon '
+                 'limits drawn from {0,1,2,3,5,10,40,150,1000} and from {exact largest closure size -1, +0, +1} computed by the reference; two sessions per round use a PDA with a large finite closure (511-4095 configurations) and limits on both sides of it and of the default 1000 (up to 5000); one step in five is an in-place edit of the live PDA (transition added/removed, accepting bit flipped, an *_in_place normal form); states/symbols/epsilon '
                  'renamed per case, run under the round\'s PYTHONHASHSEED in a pristine fork (one evaluation = one call). Oracle: exact acceptance by '
                  'matched push/pop summaries (unbounded stacks, epsilon cycles); soundness demanded always, completeness when every exact closure has <= limit configurations. '
                  'distinct = distinct abstract PDA; non-trivial = some epsilon-closure of the session has >= 3 configurations.'),
@@ -121,9 +121,9 @@ PLANS = {
         'thorough': {'rounds': 96, 'wall_cap_s': 1500},
         'rule': ('cases = sessions of 3 steps over one object of one of the six kinds (DFA/NFA <= 5 states, PDA <= 4 states, TM <= 4 working states with partial delta, '
                  'CFG <= 4 variables with epsilon/unit/cyclic rules, regexp <= 8 operators over single letters); a step draws n in 0..5 (0 and 1 over-weighted) and, '
-                 'for PDAs, sets the ambient closure limit (fixed list and exact-closure-size -1/0/+1/+5), for TMs passes max_steps in {0,1,2,5,20,1000}; per step: '
+                 'for PDAs, sets the ambient closure limit (fixed list and exact-closure-size -1/0/+1/+5), for TMs passes max_steps in {0,1,2,5,20,1000}; regexp alphabets include the letters 0 and 1; 4% of the PDA sessions use a large finite closure with limits up to 5000; per step: '
                  'X_words_up_to_n, brute force over Sigma^<=n through the library\'s own X_accepts_word under the same knobs, and generate_language (one evaluation = one step). '
-                 'PDA equality is demanded only when no pda_epsilon_closure call of the step returned a non-closed set (observed through a wrapper, checked with the reference step relation). '
+                 'PDA equality is demanded only when no pda_epsilon_closure call of the step returned a non-closed set (observed through a wrapper, checked with the reference step relation); a non-closed set although the exact closure fits under the configured limit is itself reported (closure-truncated-below-limit). '
                  'distinct = distinct abstract object; non-trivial = some step whose accepted set is neither empty nor Sigma^<=n.'),
         'schedule_measure': 'distinct (abstract object, iteration order of its Q/Sigma/Gamma/F/V sets) pairs',
         'assumptions': COMMON_ASSUMPTIONS + ['the oracle is the library\'s own acceptance test, as the statement says; its correctness is the business of other properties',
@@ -138,9 +138,9 @@ PLANS = {
         'quick': {'rounds': 32, 'wall_cap_s': 150},
         'thorough': {'rounds': 96, 'wall_cap_s': 1500},
         'rule': ('cases = sessions (pristine fork each, so the step list is the whole history since interpreter start): 2-5 base NFAs (1-3 states, arbitrary names incl. '
-                 'q0,q1,.. i.e. exactly the names the hidden generators hand out later; epsilon symbol drawn from {\'\', ε, _, e}; dict and defaultdict transition maps; partial relations) '
+                 'q0,q1,.. i.e. exactly the names the hidden generators hand out later; epsilon symbol drawn from {\'\', ε, _, e}; dict and defaultdict transition maps; partial relations; 30% with several delta keys holding the SAME set object) '
                  'followed by 3-9 constructions nfa_union / nfa_concatenation / nfa_repetition with the default or a private IdentifierGenerator, on bases and on results of earlier steps; '
-                 'pairs are built from disjoint bases and a step is skipped when its operands are not state-disjoint (precondition) (one evaluation = one construction call). '
+                 'base NFAs are occasionally edited in place between constructions; pairs are built from disjoint bases and a step is skipped when its operands are not state-disjoint (precondition) (one evaluation = one construction call). '
                  'Oracle: reference validator, exact language equality with reference union/concat/star of the operand snapshots taken before the call, an introduced state that is not an operand state, '
                  'all pool objects unchanged after the call. distinct = distinct session; non-trivial = some operand is itself a result of an earlier construction.'),
         'schedule_measure': 'distinct (session, iteration order of each base NFA\'s state set) pairs; history measure: hidden-counter values at which a construction ran and operation bigrams are in coverage.histogram',
@@ -158,7 +158,7 @@ PLANS = {
         'selftest': {'rounds': 1, 'wall_cap_s': 200, 'replicas': 2, 'logging_replica': True},
         'rule': ('a bundle = one session spec (9-14 objects of all six kinds built from seeded specs over a 1-2 letter alphabet, then 36-60 calls drawn uniformly from a registry of ~90 pure operations: '
                  'acceptance tests, enumerators, minimisers, products, complement/reverse/prefix-free, conversions (nfa_to_dfa, dfa_to_regexp, regexp_to_nfa, cfg_to_chomsky and its phases, pda_to_cfg, PDA normal forms), '
-                 'printers, generate_language, accept/reject checkers and ~14 text-level check_* functions with correct, perturbed and ill-formed answers; results join the pool and become operands) executed by 5 replicas: '
+                 'printers, generate_language, accept/reject checkers and ~14 text-level check_* functions with correct, perturbed and ill-formed answers; results join the pool and become operands; a quarter of the sessions use the alphabet {0,1}; made objects get twins that differ in one component only (q0, F, start variable, or for regexps the symbol 0/1 versus the constant 0/1 - same printed form); 5% of the steps edit a made object in place, by hand or through an *_in_place library function) executed by 5 replicas: '
                  '4 fresh interpreters with different PYTHONHASHSEED plus one with GambaTools.enable_logging=True; inside each replica the session runs in a pristine fork and one call in three is re-executed alone '
                  '(arguments rebuilt from their pre-call snapshots) in another pristine fork. One evaluation = one operation call. Oracles: every pool object is re-snapshotted after every step (argument integrity); '
                  'per-step outcome digests (exact language for DFA/NFA/regexp results, bounded language for CFG/PDA results, value for bools/sets, OK/not-OK for checkers, exception type) must agree across replicas, '
